@@ -204,6 +204,9 @@ def value_for(draw, p, type_, allow_long=True):
         elif m["array"]:
             if m["type"] == "DWORD":
                 out[m["name"]] = draw(st.lists(st.booleans(), min_size=32 * m["array"], max_size=32 * m["array"]))
+            elif m["array"] > 64:
+                a, b = draw(value_for(p, m["type"], allow_long=False)), draw(value_for(p, m["type"], allow_long=False))
+                out[m["name"]] = [a if i % 3 else b for i in range(m["array"])]
             else:
                 out[m["name"]] = [draw(value_for(p, m["type"], allow_long=False)) for _ in range(m["array"])]
         else:
